@@ -25,6 +25,10 @@ type caseSpec struct {
 	Cfg      int    `json:"cfg"`              // index into the backoff configurations
 	TS       int    `json:"ts,omitempty"`     // index into the timer sets
 	Arg      int    `json:"arg,omitempty"`    // select-reject: status; close-in-loop: failed attempts before Close (+100: accept afterwards)
+	// SendCtxMS: the application's reply-expected send of the canonical session carries a context
+	// deadline of this many ms (shorter than the write timeout): the caller giving up on a write
+	// that hangs does not make the dead link any less dead
+	SendCtxMS int `json:"send_ctx_ms,omitempty"`
 }
 
 type failure struct{ key, desc string }
@@ -167,7 +171,13 @@ func (x *exec) session() (surprise string) {
 	var rep *hsms.DataMessage
 	var serr error
 	call := w.Go(func() {
-		rep, serr = w.C.SendDataMessage(context.Background(), 1, 1, true, secs2.NewASCIIItem("ab"))
+		ctx := context.Background()
+		if x.cs.SendCtxMS > 0 {
+			var cancel context.CancelFunc
+			ctx, cancel = context.WithTimeout(ctx, time.Duration(x.cs.SendCtxMS)*time.Millisecond)
+			defer cancel()
+		}
+		rep, serr = w.C.SendDataMessage(ctx, 1, 1, true, secs2.NewASCIIItem("ab"))
 	})
 	w.Settle()
 	if x.gateFiredNow() {
